@@ -1,61 +1,77 @@
 (* Proofs over Model/Wake.v: no wake-up is lost. *)
 From Coq Require Import List Arith Bool Lia.
-From LokyV Require Import Lib.LedgerLib Gen.Ledger Model.Wake.
+From LokyV Require Import Lib.LedgerLib Gen.Ledger Lib.PoolLib Gen.Pool Model.Wake.
 Import ListNotations.
 
 Lemma rechecks_holds : manager_rechecks_work_ids_when_shutting_down = true.
 Proof. reflexivity. Qed.
+(* submit() registers the item, publishes its id and only then writes the wake-up byte *)
+Lemma wake_ops_is : wake_ops = [SAddPending; SPutWorkId; SWakeup].
+Proof. reflexivity. Qed.
 
 Definition b2n (b : bool) := if b then 1 else 0.
+(* a wake-up byte is still to be written by the submit() in progress *)
+Definition wahead (l : list sop) : nat := if existsb (fun o => match o with SWakeup => true | _ => false end) l then 1 else 0.
+Definition subshape (l : list sop) (n : nat) : Prop :=
+  (l = [] /\ n = 0) \/ (l = [SAddPending; SPutWorkId; SWakeup] /\ n = 0) \/ (l = [SPutWorkId; SWakeup] /\ n = 1) \/ (l = [SWakeup] /\ n = 0).
+
 Definition WInv (s : ws) : Prop :=
   nd s = results s + b2n (have s) /\
+  subshape (sub s) (nt s) /\
+  (shut s = true -> sub s = []) /\
   match ph s with
   | MAdd => have s = false /\ (shut s = true -> 0 < wake s + results s + nr s)
   | MWait => have s = false /\
-             (0 < np s + nc s -> 0 < wake s) /\            (* an untouched item is never forgotten: its wake-up byte is still there *)
-             (shut s = true -> 0 < wake s + results s + nr s)   (* while shutting down the manager is never parked for good *)
+             (0 < np s + nc s -> 0 < wake s + wahead (sub s)) /\     (* a published item is never forgotten: its wake-up byte is there or coming *)
+             (shut s = true -> 0 < wake s + results s + nr s)        (* while shutting down the manager is never parked for good *)
   | MCheck => have s = false
   | MExit => have s = false /\ in_table s = 0 /\ shut s = true
   | _ => True
   end.
 
 Lemma winv0 : WInv ws0.
-Proof. unfold WInv, ws0; simpl. repeat split; auto; discriminate. Qed.
+Proof. unfold WInv, ws0, subshape; simpl. repeat split; auto; try discriminate; lia. Qed.
 
-Ltac fin := unfold WInv, in_table in *; simpl in *; intuition (subst; unfold b2n in *; simpl in *; try discriminate; try congruence; try lia).
+Ltac shape := unfold subshape; first [left; split; [reflexivity|lia] | right; left; split; [reflexivity|lia]
+                                       | right; right; left; split; [reflexivity|lia] | right; right; right; split; [reflexivity|lia]].
+Ltac eqbs := repeat match goal with
+                    | H : Nat.eqb _ _ = true |- _ => apply Nat.eqb_eq in H
+                    | H : Nat.eqb _ _ = false |- _ => apply Nat.eqb_neq in H end.
+Ltac fin := eqbs; unfold WInv, in_table, upd_sub, wahead, b2n in *; simpl in *;
+            repeat match goal with H : _ /\ _ |- _ => destruct H end; subst;
+            repeat match goal with |- context [if ?b then _ else _] => destruct b end;
+            repeat match goal with |- _ /\ _ => split end;
+            try shape; intros; simpl in *; try discriminate; try congruence; try lia.
+Ltac proj := cbn [Wake.np Wake.nc Wake.nr Wake.nd Wake.wake Wake.results Wake.have Wake.shut Wake.ph Wake.nt Wake.sub] in *.
+Ltac go := repeat (proj; cbv zeta; unfold in_table, upd_sub; proj;
+                   match goal with
+                   | |- WInv (if ?b then _ else _) => destruct b eqn:?
+                   | |- WInv (match ?x with _ => _ end) => destruct x eqn:?
+                   end).
 
 Lemma step_winv s e : WInv s -> WInv (step s e).
 Proof.
-  unfold step. rewrite rechecks_holds. intros I.
-  destruct s as [np nc nr nd wake results have shut ph].
-  destruct e; unfold step_with; cbn [Wake.np Wake.nc Wake.nr Wake.nd Wake.wake Wake.results Wake.have Wake.shut Wake.ph].
-  - (* Submit *) destruct shut; [exact I|]. destruct ph; fin.
-  - (* Cancel *) destruct np as [|n]; [exact I|]. destruct ph; fin.
-  - (* Shutdown *) destruct ph; fin.
-  - (* Finish *) destruct nr as [|n]; [exact I|]. destruct ph; fin.
-  - (* Mgr *) destruct ph.
-    + fin.
-    + destruct (Nat.eqb (wake + results) 0) eqn:Z; [exact I|]. apply Nat.eqb_neq in Z. destruct results; fin.
-    + fin.
-    + destruct have; fin.
-    + destruct shut.
-      * unfold in_table; cbn [Wake.np Wake.nc Wake.nr Wake.nd Wake.wake Wake.results Wake.have Wake.shut Wake.ph].
-        destruct (Nat.eqb (0 + 0 + (nr + np) + nd) 0) eqn:Z; [apply Nat.eqb_eq in Z | apply Nat.eqb_neq in Z]; fin.
-      * fin.
-    + exact I.
+  unfold step. rewrite rechecks_holds, wake_ops_is. intros I.
+  destruct s as [nt np nc nr nd wake results have shut ph sub].
+  pose proof I as (D & SS & SH & P). proj.
+  destruct SS as [[-> ->]|[[-> ->]|[[-> ->]|[-> ->]]]];
+  (destruct shut; [try (specialize (SH eq_refl); discriminate)|]);
+  destruct e; unfold step_with; go; first [exact I | try destruct ph; fin].
 Qed.
 
 Theorem run_winv es : forall s, WInv s -> WInv (run es s).
 Proof. unfold run. induction es as [|e es IH]; intros s I; simpl; [exact I|]. apply IH, step_winv, I. Qed.
 
-(* every history of submissions, cancellations, shutdowns, completions and manager steps: the manager is parked with nothing
-   inside the pool to wake it only when the table is empty and the pool is not shutting down *)
+(* every history of submissions (statement by statement), cancellations, shutdowns, completions and manager steps: the manager is
+   parked, with no submit() in progress and nothing inside the pool to wake it, only when the table is empty and the pool is not
+   shutting down *)
 Theorem no_wake_up_is_lost es : let s := run es ws0 in asleep_for_good s = true -> shut s = false /\ in_table s = 0.
 Proof.
   intros s A. pose proof (run_winv es ws0 winv0) as I. fold s in I. clearbody s.
-  destruct s as [np nc nr nd wake results have shut ph].
-  unfold asleep_for_good in A. cbn [Wake.ph Wake.wake Wake.results Wake.nr] in A. destruct ph; try discriminate.
-  apply andb_true_iff in A. destruct A as [A1 A2]. apply Nat.eqb_eq in A1. apply Nat.eqb_eq in A2.
+  destruct s as [nt np nc nr nd wake results have shut ph sub].
+  unfold asleep_for_good in A. proj. destruct ph; try discriminate. destruct sub; [|discriminate].
+  apply andb_true_iff in A. destruct A as [A1 A2].
+  destruct I as (D & SS & SH & P). proj. destruct SS as [[_ ->]|[[E _]|[[E _]|[E _]]]]; try discriminate.
   destruct shut; fin.
 Qed.
 
@@ -63,30 +79,34 @@ Qed.
 Theorem manager_leaves_an_empty_table es : let s := run es ws0 in ph s = MExit -> in_table s = 0 /\ shut s = true.
 Proof.
   intros s E. pose proof (run_winv es ws0 winv0) as I. fold s in I. clearbody s.
-  destruct s as [np nc nr nd wake results have shut ph]. simpl in E. subst ph. fin.
+  destruct s as [nt np nc nr nd wake results have shut ph sub]. simpl in E. subst ph. fin.
 Qed.
 
-(* once the manager has left it stays gone, and while it is there shutting down always lets it make a step *)
+(* while it is there, a manager that was asked to stop always has a step to make once the dispatched jobs have finished *)
 Theorem shutting_down_manager_is_never_stuck es :
   let s := run es ws0 in shut s = true -> ph s <> MExit -> nr s = 0 -> step s Mgr <> s.
 Proof.
   intros s Sh P R. pose proof (run_winv es ws0 winv0) as I. fold s in I. clearbody s.
   unfold step. rewrite rechecks_holds.
-  destruct s as [np nc nr nd wake results have shut ph]. simpl in Sh, P, R. subst shut nr.
-  unfold step_with; cbn [Wake.np Wake.nc Wake.nr Wake.nd Wake.wake Wake.results Wake.have Wake.shut Wake.ph].
+  destruct s as [nt np nc nr nd wake results have shut ph sub]. simpl in Sh, P, R. subst shut nr.
+  unfold step_with; proj.
   destruct ph; try congruence; try discriminate.
   - destruct (Nat.eqb (wake + results) 0) eqn:Z.
-    + apply Nat.eqb_eq in Z. fin.
+    + fin.
     + destruct results; discriminate.
-  - unfold in_table; cbn [Wake.np Wake.nc Wake.nr Wake.nd Wake.wake Wake.results Wake.have Wake.shut Wake.ph].
-    destruct (Nat.eqb (0 + 0 + (0 + np) + nd) 0); discriminate.
+  - unfold in_table; proj. destruct (Nat.eqb (nt + 0 + 0 + (0 + np) + nd) 0); discriminate.
 Qed.
 
 (* H11: without the re-check the manager can be parked for ever while the pool is shutting down *)
 Example h11_lost_wake_up :
-  let s := fold_left (step_with false) [Mgr; Submit; Cancel; Shutdown; Mgr; Mgr; Mgr; Mgr; Mgr] ws0 in
+  let s := fold_left (step_with false wake_ops) [Mgr; SubmitBegin; SubStep; SubStep; SubStep; Cancel; Shutdown; Mgr; Mgr; Mgr; Mgr; Mgr] ws0 in
   asleep_for_good s = true /\ shut s = true /\ in_table s = 0.
 Proof. vm_compute. auto. Qed.
 Example h11_fixed :
-  let s := run [Mgr; Submit; Cancel; Shutdown; Mgr; Mgr; Mgr; Mgr] ws0 in ph s = MExit.
+  let s := run [Mgr; SubmitBegin; SubStep; SubStep; SubStep; Cancel; Shutdown; Mgr; Mgr; Mgr; Mgr] ws0 in ph s = MExit.
 Proof. vm_compute. reflexivity. Qed.
+(* writing the wake-up byte before the work id is published loses the job: the manager wakes, clears the pipe, finds nothing, sleeps *)
+Example wake_up_before_publishing_loses_the_job :
+  let s := fold_left (step_with true [SWakeup; SAddPending; SPutWorkId]) [Mgr; SubmitBegin; SubStep; Mgr; Mgr; Mgr; Mgr; Mgr; SubStep; SubStep] ws0 in
+  asleep_for_good s = true /\ in_table s = 1.
+Proof. vm_compute. auto. Qed.
